@@ -104,6 +104,7 @@ class Library(object):
     """all contracts, lemmas, predicates + the spec theory"""
     def __init__(self, theory, contracts, lemmas, preds):
         self.theory = theory
+        self.raw_contracts = contracts
         self.contracts = {k: Contract(k, v) for k, v in contracts.items()}
         self.lemmas = {k: Lemma(k, v) for k, v in lemmas.items()}
         self.preds = preds
@@ -543,6 +544,8 @@ class FuncVerifier(object):
     def st_Expr(self, n, st):
         if isinstance(n.value, ast.Constant):
             return [(st, None)]
+        if isinstance(n.value, ast.Call) and isinstance(n.value.func, ast.Name) and n.value.func.id == 'print' and 'print' not in st.env:
+            return [(st, None)]          # diagnostics: no effect on the state (its arguments are not evaluated)
         self.pev(n.value, st)
         return [(st, None)]
 
